@@ -8,10 +8,11 @@ use cosmwasm_std::{
 };
 use cw20::{
     AllAccountsResponse, AllAllowancesResponse, AllSpenderAllowancesResponse, AllowanceResponse, BalanceResponse,
-    Cw20Coin, Cw20ReceiveMsg, MinterResponse, TokenInfoResponse,
+    Cw20Coin, Cw20ReceiveMsg, DownloadLogoResponse, EmbeddedLogo, Logo, LogoInfo, MarketingInfoResponse,
+    MinterResponse, TokenInfoResponse,
 };
 use cw20_base::contract::{execute, instantiate, migrate, query};
-use cw20_base::msg::{ExecuteMsg, InstantiateMsg, MigrateMsg, QueryMsg};
+use cw20_base::msg::{ExecuteMsg, InstantiateMarketingInfo, InstantiateMsg, MigrateMsg, QueryMsg};
 use cw20_base::state::{MinterData, TokenInfo, ALLOWANCES, BALANCES, TOKEN_INFO};
 use std::marker::PhantomData;
 
@@ -38,6 +39,43 @@ fn new_deps() -> Deps {
 }
 
 const U128MAX: u128 = u128::MAX;
+
+/// `url:<text>` | `svg:<payload>` | `png:<payload>` (inst) — or the `url=`/`svg=`/`png=` keys of a `logo` op.
+fn parse_logo(kind: &str, val: &str) -> Option<Logo> {
+    match kind {
+        "url" => Some(Logo::Url(text_dec(val))),
+        "svg" => Some(Logo::Embedded(EmbeddedLogo::Svg(Binary::from(parse_payload(val))))),
+        "png" => Some(Logo::Embedded(EmbeddedLogo::Png(Binary::from(parse_payload(val))))),
+        _ => None,
+    }
+}
+
+/// The shape of `<proj>;<desc>;<addr>;<logoinfo>` shared by `obs minfo=` and `query marketing_info`.
+fn render_minfo(m: &MarketingInfoResponse) -> String {
+    format!(
+        "{};{};{};{}",
+        opt_text_enc(&m.project),
+        opt_text_enc(&m.description),
+        opt_text_enc(&m.marketing.as_ref().map(|a| a.to_string())),
+        match &m.logo {
+            None => "-".to_string(),
+            Some(LogoInfo::Embedded) => "embedded".to_string(),
+            Some(LogoInfo::Url(u)) => format!("url:{}", text_enc(u)),
+        }
+    )
+}
+
+fn render_download(d: &DownloadLogoResponse) -> String {
+    let mime = match d.mime_type.as_str() {
+        "image/svg+xml" => "svg".to_string(),
+        "image/png" => "png".to_string(),
+        other => text_enc(other),
+    };
+    format!("{}:{}", mime, render_data(d.data.as_slice()))
+}
+
+const XML_OK: &str = "3c3f786d6c2076657273696f6e3d22312e30223f3e3c7376672f3e"; // <?xml version="1.0"?><svg/>
+const PNG_HDR: &str = "89504e470d0a1a0a";
 
 impl Cw20Scen {
     pub fn new() -> Self {
@@ -212,8 +250,16 @@ impl Cw20Scen {
             }
         }
         pagediff.dedup();
+        let minfo = match self.q::<MarketingInfoResponse>(QueryMsg::MarketingInfo {}) {
+            Some(m) => render_minfo(&m),
+            None => "err".to_string(),
+        };
+        let logo = match self.q::<DownloadLogoResponse>(QueryMsg::DownloadLogo {}) {
+            Some(d) => render_download(&d),
+            None => "err".to_string(),
+        };
         format!(
-            "obs pagediff={} supply={} minter={} cap={} bal={} allow={} allowsp={} pallow={}",
+            "obs pagediff={} supply={} minter={} cap={} bal={} allow={} allowsp={} pallow={} minfo={} logo={}",
             pagediff.join(","),
             supply,
             mn,
@@ -221,7 +267,9 @@ impl Cw20Scen {
             bal.join(","),
             allow.join(","),
             allowsp.join(","),
-            pallow.join(",")
+            pallow.join(","),
+            minfo,
+            logo
         )
     }
 
@@ -316,6 +364,79 @@ impl Cw20Scen {
         }
     }
 
+    /// A free-text field of the marketing info: `-` (absent), `empty`, blank strings (ASCII and Unicode
+    /// white space), a zero-width space (not white space), ordinary text.
+    fn gen_text(&self, rng: &mut Rng, stem: &str) -> String {
+        match rng.below(14) {
+            0 | 1 | 2 => "-".to_string(),
+            3 => "empty".to_string(),
+            4 => "%20".to_string(),
+            5 => "%09%0A%20%0D".to_string(),
+            6 => "%C2%A0%E2%80%83".to_string(),  // NBSP + EM SPACE: blank for `trim`
+            7 => "%E2%80%8B".to_string(),        // ZERO WIDTH SPACE: not white space
+            8 => format!("%20{stem}%20"),
+            9 => "%65mpty".to_string(),
+            10 => format!("{stem}%2Dwith%3Dodd%2Cchars%3B"),
+            _ => format!("{stem}{}", rng.below(3)),
+        }
+    }
+
+    /// `(kind, value)` of a logo: URLs, valid / invalid / boundary-size embedded images.
+    fn gen_logo(&self, rng: &mut Rng) -> (String, String) {
+        let (k, v): (&str, String) = match rng.below(24) {
+            0 | 1 | 2 => ("url", format!("u{}", rng.below(3))),
+            3 => ("url", "empty".to_string()),
+            4 => ("url", "https%3A%2F%2Fexample.com%2Flogo.svg".to_string()),
+            5 | 6 | 7 => ("svg", XML_OK.to_string()),
+            8 => ("svg", "3c3f786d6c203f3e".to_string()),                 // <?xml ?>  (shortest valid)
+            9 => ("svg", "".to_string()),                                  // empty
+            10 => ("svg", "3c7376672f3e".to_string()),                     // <svg/>
+            11 => ("svg", "3c3f786d6c20613e203f3e".to_string()),           // <?xml a> ?>  first '>' not after '?'
+            12 => ("svg", "3c3f786d6c2076657273696f6e".to_string()),       // <?xml version  (no '>')
+            13 => ("svg", "203c3f786d6c203f3e".to_string()),               // leading blank
+            14 => ("svg", "3c3f786d6c3f3e".to_string()),                   // <?xml?>  (no blank after xml)
+            15 => ("svg", format!("{XML_OK}.20x{}", 5120 - 27 + rng.below(2))),   // exactly at / one above the cap
+            16 => ("svg", format!("3c7376672f3e.20x{}", 5120 - 6 + rng.below(2))), // bad preamble at the cap
+            17 | 18 | 19 => ("png", format!("{PNG_HDR}{}", if rng.chance(1, 2) { "0000000d49484452" } else { "" })),
+            20 => ("png", PNG_HDR[..14].to_string()),                      // truncated header
+            21 => ("png", "89504e470d0a1a0b00".to_string()),               // wrong last header byte
+            22 => ("png", format!("{PNG_HDR}.00x{}", 5120 - 8 + rng.below(2))),    // at / above the cap
+            _ => ("png", format!("{}.ffx{}", if rng.chance(1, 2) { "" } else { "3c3f786d6c203f3e" }, 5113 + rng.below(9))),
+        };
+        (k.to_string(), v)
+    }
+
+    fn marketing_addr(&self) -> Option<String> {
+        self.q::<MarketingInfoResponse>(QueryMsg::MarketingInfo {}).and_then(|m| m.marketing).map(|a| a.to_string())
+    }
+
+    fn gen_marketing_op(&self, rng: &mut Rng) -> String {
+        let owner = self.marketing_addr();
+        let snd = match &owner {
+            Some(o) if rng.chance(4, 5) => o.clone(),
+            _ => rng.pick(&self.pool).to_string(),
+        };
+        if rng.chance(1, 2) {
+            let maddr = match rng.below(16) {
+                0 => "empty".to_string(),
+                1 => "-%20".to_string(),
+                2 => format!("-{INVALID_ADDR}"),
+                3 | 4 => format!("+{}", rng.pick(&self.pool)),
+                5 => format!("+{snd}"),
+                6 => format!("-%20{}", rng.pick(&self.pool)),
+                _ => "-".to_string(),
+            };
+            format!(
+                "exec {snd} marketing project={} description={} marketing={maddr}",
+                self.gen_text(rng, "proj"),
+                self.gen_text(rng, "desc")
+            )
+        } else {
+            let (k, v) = self.gen_logo(rng);
+            format!("exec {snd} logo {k}={v}")
+        }
+    }
+
     fn gen_inst(&self, rng: &mut Rng) -> String {
         let legacy = rng.chance(1, 6);
         let n = if self.wide { rng.below(self.pool.len() as u64 + 1) as usize } else { rng.below(6) as usize };
@@ -375,7 +496,30 @@ impl Cw20Scen {
             let name = if rng.chance(9, 10) { "Token" } else { name };
             let sym = if rng.chance(9, 10) { "TOK" } else { *rng.pick(&["TK", "TOK1", "TOK-EN", "abcdefghijklm", "T_K"]) };
             let dec = if rng.chance(9, 10) { 6 } else { *rng.pick(&[0u8, 18, 19, 255]) };
-            format!("inst name={} sym={} dec={} bal={} mint={} cap={}", name, sym, dec, bal.join(","), mint, cap)
+            let mkt = if rng.chance(1, 6) {
+                "mkt=-".to_string()
+            } else {
+                let maddr = match rng.below(24) {
+                    0 | 1 => "-".to_string(),
+                    2 => format!("-{INVALID_ADDR}"),
+                    3 => "-%20".to_string(),
+                    _ => format!("+{}", rng.pick(&self.pool)),
+                };
+                let mlogo = if rng.chance(1, 2) {
+                    "-".to_string()
+                } else {
+                    let (k, v) = self.gen_logo(rng);
+                    format!("{k}:{v}")
+                };
+                format!(
+                    "mkt=1 mproject={} mdesc={} maddr={} mlogo={}",
+                    self.gen_text(rng, "proj"),
+                    self.gen_text(rng, "desc"),
+                    maddr,
+                    mlogo
+                )
+            };
+            format!("inst name={} sym={} dec={} bal={} mint={} cap={} {}", name, sym, dec, bal.join(","), mint, cap, mkt)
         }
     }
 }
@@ -441,14 +585,15 @@ impl Scenario for Cw20Scen {
                 _ => format!("query balance address={}", self.gen_addr(rng)),
             };
         }
-        if r < 19 {
-            return if rng.chance(1, 2) {
-                format!("exec {} marketing project=p{}", rng.pick(&self.pool), rng.below(3))
+        // without a marketing address nobody can change anything: probe that only now and then
+        if r < 24 && (self.marketing_addr().is_some() || rng.chance(1, 4)) {
+            return if rng.chance(1, 8) {
+                (*rng.pick(&["query marketing_info", "query download_logo"])).to_string()
             } else {
-                format!("exec {} logo url=u{}", rng.pick(&self.pool), rng.below(3))
+                self.gen_marketing_op(rng)
             };
         }
-        if r < 22 || (self.legacy && r < 30) {
+        if r < 27 || (self.legacy && r < 34) {
             self.legacy = false;
             return "migrate".to_string();
         }
@@ -580,7 +725,12 @@ impl Scenario for Cw20Scen {
                     decimals: a.u64("dec") as u8,
                     initial_balances: initial,
                     mint,
-                    marketing: None,
+                    marketing: a.opt("mkt").map(|_| InstantiateMarketingInfo {
+                        project: a.opt("mproject").map(|t| text_dec(&t)),
+                        description: a.opt("mdesc").map(|t| text_dec(&t)),
+                        marketing: a.opt("maddr").map(|t| text_dec(&addr_text(&t))),
+                        logo: a.opt("mlogo").and_then(|l| l.split_once(':').and_then(|(k, v)| parse_logo(k, v))),
+                    }),
                 };
                 let info = MessageInfo { sender: self.pool[0].clone(), funds: vec![] };
                 let r = self.tx(|d, e| instantiate(d.as_mut(), e, info, msg));
@@ -659,8 +809,19 @@ impl Scenario for Cw20Scen {
                         amount: amt,
                         msg: payload,
                     },
-                    "marketing" => ExecuteMsg::UpdateMarketing { project: a.opt("project"), description: None, marketing: None },
-                    "logo" => ExecuteMsg::UploadLogo(cw20::Logo::Url(a.str("url"))),
+                    "marketing" => ExecuteMsg::UpdateMarketing {
+                        project: a.opt("project").map(|t| text_dec(&t)),
+                        description: a.opt("description").map(|t| text_dec(&t)),
+                        // `-` none, `empty` the empty string, else `+addr` / `-text`
+                        marketing: a.opt("marketing").map(|t| if t == "empty" { String::new() } else { text_dec(&addr_text(&t)) }),
+                    },
+                    "logo" => {
+                        let l = ["url", "svg", "png"].iter().find_map(|k| a.get(k).and_then(|v| parse_logo(k, v)));
+                        match l {
+                            Some(l) => ExecuteMsg::UploadLogo(l),
+                            None => return vec!["> err badop=1".to_string(), self.observe(op)],
+                        }
+                    }
                     _ => return vec!["> err badop=1".to_string(), self.observe(op)],
                 };
                 let info = MessageInfo { sender: snd, funds: vec![] };
@@ -704,6 +865,8 @@ impl Scenario for Cw20Scen {
                     "balance" => self
                         .q::<BalanceResponse>(QueryMsg::Balance { address: addr_text(&a.str("address")) })
                         .map(|r| r.balance.to_string()),
+                    "marketing_info" => self.q::<MarketingInfoResponse>(QueryMsg::MarketingInfo {}).map(|m| render_minfo(&m)),
+                    "download_logo" => self.q::<DownloadLogoResponse>(QueryMsg::DownloadLogo {}).map(|d| render_download(&d)),
                     _ => None,
                 };
                 match res {
